@@ -99,7 +99,17 @@ def _deepcopy_json(x: Any) -> Any:
     return x
 
 
-def build(r: Any):
+def build(r: Any, memo: Any = None):
+    """memo: dict - recipe nodes carrying the same "share" key are built once and the *same object* is reused"""
+    if memo is not None and isinstance(r, dict) and "share" in r:
+        key = r["share"]
+        if key not in memo:
+            memo[key] = _build(r, memo)
+        return memo[key]
+    return _build(r, memo)
+
+
+def _build(r: Any, memo: Any = None):
     h = H()
     k = r["k"]
     if k == "text":
@@ -122,7 +132,7 @@ def build(r: Any):
         cls = TfyRepr if r.get("repr") else Tfy
         return cls(r["res"], bool(r.get("raw")))
     if k == "list":
-        items = [build(x) for x in r["kids"]]
+        items = [build(x, memo) for x in r["kids"]]
         t = r.get("t", "list")
         if t == "tuple":
             return tuple(items)
@@ -131,7 +141,7 @@ def build(r: Any):
         return items
     if k == "tag":
         attrs = [{a[0]: attr_value(a[1])} for a in r.get("attrs", [])]
-        kids = [build(x) for x in r.get("kids", [])]
+        kids = [build(x, memo) for x in r.get("kids", [])]
         if r.get("fn"):
             # through the generated tag function (default whitespace flag unless given)
             mod = h.svg if r["fn"] == "svg" else h.tags
